@@ -176,3 +176,43 @@ def scratch_arrays(obj) -> list:
                 and v.ndim >= 1 and v.size > 0:
             out.append(v)
     return out
+
+
+def gen_exact_fill(rng: random.Random) -> tuple[dict, list]:
+    """Full-width strips that fill b bins exactly plus one tiny item that has to
+    go to bin b+1 alone: lower_bound_bins = b+1 and the natural packing has a
+    sparse last bin holding only the smallest item. Returns (inst, x)."""
+    W = rng.choice([3, 8, 12, 20, 25, 40])
+    H = rng.choice([6, 10, 15, 24, 40, 60])
+    b = rng.choice([1, 1, 2, 3])
+    items: list = []
+    x: list = []
+    for _ in range(b):
+        left = H
+        while left > 0:
+            h = left if left <= 2 or rng.random() < 0.3 \
+                else rng.randint(1, left)
+            key = [W, h]
+            for t, it in enumerate(items):
+                if it[:2] == key:
+                    it[2] += 1
+                    x.append(t + 1)
+                    break
+            else:
+                items.append([W, h, 1])
+                x.append(len(items))
+            left -= h
+    tw, th = rng.randint(1, max(1, W // 4)), rng.randint(1, max(1, H // 6))
+    if [tw, th] in [it[:2] for it in items]:
+        tw = max(1, tw - 1) if tw > 1 else tw
+    items.append([tw, th, 1])
+    x.append(len(items))
+    # item types in arbitrary order (ids in x renamed accordingly)
+    order = list(range(len(items)))
+    rng.shuffle(order)
+    new_id = {old + 1: new + 1 for new, old in enumerate(order)}
+    items = [items[old] for old in order]
+    x = [new_id[v] for v in x]
+    inst = {"W": W, "H": H, "items": items}
+    assert valid_inst(inst), inst
+    return inst, x
